@@ -1146,7 +1146,7 @@ def replay(ctx, rec):
 
 MANIFEST = {
     "text": "Exploration: ~1.5*10^5 (quick) / ~10^6 or more (thorough) generated Elasticsearch-shaped responses (bulk, search, scroll, composite-agg pages; hostile strings, "
-    "compact / pretty / Jackson layouts, canonical and shuffled key order, pages with more than 8 KiB after the last hit's sort key) are fed to the real runner.parse, BulkIndex fast and detailed path, SearchAfterExtractor, "
+    "compact / pretty / Jackson layouts, canonical and shuffled key order, pages with more than 8 KiB - some with several hundred KiB - after the last hit's sort key) are fed to the real runner.parse, BulkIndex fast and detailed path, SearchAfterExtractor, "
     "CompositeAggExtractor and the paginated Query runner (end to end against a recording stub client); every extracted value, cursor, count and page/hits/took/timed_out "
     "figure is compared with json.loads of the same bytes. Holds on the responses produced, not beyond; the canonical ES shape must be violation-free, "
     "known deviations are keyed by mechanism.",
